@@ -302,7 +302,7 @@ fn main() {
             let cv = if v.get("case").is_some() { v["case"].clone() } else { v };
             let case: cbverif::zst_engine::ZCase = serde_json::from_value(cv).expect("case");
             println!("case: {}", case.render());
-            match cbverif::zst_engine::run_zcase(&case) {
+            match cbverif::zst_engine::run_zcase_with_reference(&case) {
                 Ok(_) => println!("REPLAY-OK"),
                 Err(m) => {
                     println!("REPLAY-FAIL {m}");
